@@ -186,3 +186,102 @@ Proof.
   intros Hv Hc H1 H2 H3 H4. unfold tube_amplitude. rewrite snell_betas_eq_gammas by assumption.
   apply beamspread_is_tube_R; assumption.
 Qed.
+
+(* ---- C07: reverse beamspread = direct beamspread of the reversed path ------- *)
+(* rthetas' are the incidence angles of the REVERSED path (in its own order); each is the
+   Snell image of the forward incidence angle at the same interface:
+   sin th' = (v_next / v_prev) sin th, with (v_next, v_prev) consecutive in rev vel *)
+Fixpoint snell_images (rvel rthetas rthetas' : list R) : Prop :=
+  match rvel, rthetas, rthetas' with
+  | vn :: ((vp :: _) as rvel'), th :: ths, th' :: ths' =>
+      0 < vn /\ 0 < vp /\ sin th' = vn / vp * sin th /\ cos th' <> 0 /\ snell_images rvel' ths ths'
+  | _, [], [] => True
+  | _ :: nil, _, _ => True
+  | nil, _, _ => True
+  | _, _, _ => False
+  end.
+
+Lemma rev_gamma_is_gamma_of_reversed vn vp th th' :
+  0 < vn -> 0 < vp -> sin th' = vn / vp * sin th -> cos th' <> 0 ->
+  rev_gamma_of NumR vn vp th = gamma_of NumR vn vp th'.
+Proof.
+  intros Hn Hp Hs Hc. unfold rev_gamma_of, gamma_of. cbn [NumR nsin ncos nmul nsub ndiv n1].
+  set (nu := vn / vp). fold nu in Hs.
+  assert (Hnu : 0 < nu) by (unfold nu; apply Rdiv_lt_0_compat; assumption).
+  set (c := cos th). set (s := sin th) in *. set (c' := cos th') in *.
+  assert (Hc2 : c' * c' = 1 - nu * nu * s * s).
+  { pose proof (sin2_cos2 th') as H. unfold Rsqr in H. fold c' in H. rewrite Hs in H. lra. }
+  assert (Hth : c * c = 1 - s * s).
+  { pose proof (sin2_cos2 th) as H. unfold Rsqr in H. fold c s in H. lra. }
+  assert (Hcc : c' * c' <> 0) by (intro E; apply Rmult_integral in E; tauto).
+  rewrite Hs. rewrite <- Hc2.
+  transitivity (nu * (c * c) / (c' * c')).
+  - field. exact Hc.
+  - replace (nu * nu - nu * s * (nu * s)) with (nu * nu * (c * c)) by (rewrite Hth; ring).
+    field. split; [exact Hc | lra].
+Qed.
+
+Lemma rev_gamma_list_eq rvel : forall ths ths',
+  snell_images rvel ths ths' -> length ths = length ths' ->
+  rev_gamma_list NumR rvel ths = gamma_list NumR rvel ths'.
+Proof.
+  induction rvel as [|vn rvel IH]; intros ths ths' H Hl; [reflexivity|].
+  destruct rvel as [|vp rvel]; [reflexivity|].
+  destruct ths as [|th ths]; destruct ths' as [|th' ths']; try discriminate; [reflexivity|].
+  cbn [snell_images] in H. destruct H as (Hn & Hp & Hs & Hc & Hrest).
+  cbn [rev_gamma_list gamma_list]. f_equal.
+  - apply rev_gamma_is_gamma_of_reversed; assumption.
+  - apply IH; [exact Hrest | simpl in Hl; congruence].
+Qed.
+
+Lemma reverse_beamspread_eq vel legs thetas rthetas' :
+  snell_images (rev vel) (rev thetas) rthetas' -> length thetas = length rthetas' ->
+  reverse_beamspread NumR vel legs thetas = beamspread NumR (rev vel) (rev legs) rthetas'.
+Proof.
+  intros H Hl. unfold reverse_beamspread, beamspread.
+  rewrite (rev_gamma_list_eq (rev vel) (rev thetas) rthetas') by (try assumption; rewrite rev_length; assumption).
+  reflexivity.
+Qed.
+
+(* ---- attenuation is the same in both directions ------------------------------ *)
+Definition att_term (ar : option R * R) : R := match fst ar with None => 0 | Some a => a * snd ar end.
+
+Lemma att_fold (l : list (option R * R)) acc :
+  fold_left (fun acc ar => match fst ar with None => acc | Some a => acc - a * snd ar end) l acc
+  = acc - fold_right (fun ar s => att_term ar + s) 0 l.
+Proof.
+  revert acc. induction l as [|[o r] l IH]; intros acc; simpl; [ring|].
+  rewrite IH. unfold att_term. simpl. destruct o; ring.
+Qed.
+
+Lemma sum_rev (l : list (option R * R)) :
+  fold_right (fun ar s => att_term ar + s) 0 (rev l) = fold_right (fun ar s => att_term ar + s) 0 l.
+Proof.
+  induction l as [|x l IH]; [reflexivity|]. simpl. rewrite fold_right_app. simpl.
+  assert (G : forall l0 c, fold_right (fun ar s => att_term ar + s) c l0 = fold_right (fun ar s => att_term ar + s) 0 l0 + c).
+  { induction l0 as [|y l0 IHl]; intros c; simpl; [ring|]. rewrite IHl. ring. }
+  rewrite G, IH. ring.
+Qed.
+
+Lemma combine_app_eq {A B} (l1 l1' : list A) (l2 l2' : list B) : length l1 = length l2 ->
+  combine (l1 ++ l1') (l2 ++ l2') = combine l1 l2 ++ combine l1' l2'.
+Proof.
+  revert l2. induction l1 as [|a l1 IH]; intros [|b l2] H; simpl in *; try discriminate; [reflexivity|].
+  rewrite IH by congruence. reflexivity.
+Qed.
+
+Lemma combine_rev_eq {A B} (l1 : list A) : forall (l2 : list B), length l1 = length l2 ->
+  combine (rev l1) (rev l2) = rev (combine l1 l2).
+Proof.
+  induction l1 as [|a l1 IH]; intros [|b l2] H; simpl in *; try discriminate; [reflexivity|].
+  rewrite combine_app_eq by (rewrite !rev_length; congruence).
+  rewrite IH by congruence. reflexivity.
+Qed.
+
+Lemma attenuation_reverse atts legs : length atts = length legs ->
+  attenuation NumR (rev atts) (rev legs) = attenuation NumR atts legs.
+Proof.
+  intros Hl. unfold attenuation. cbn [NumR nexp nsub nmul n0]. f_equal.
+  rewrite !att_fold. f_equal.
+  rewrite combine_rev_eq by assumption. apply sum_rev.
+Qed.
